@@ -612,16 +612,79 @@ impl<C: ColNum> Dimensions for R2<C> {
         self.rec.bbox
     }
 }
+thread_local! {
+    /// How the recording targets consume the iterators they are handed (see `drain_iter`). 0 = a `for` loop (`next`).
+    pub static CONSUME_MODE: std::cell::Cell<u32> = const { std::cell::Cell::new(0) };
+    /// number of iterators drained by recording targets since the last reset (main.rs: is a second run worthwhile?)
+    pub static DRAIN_CALLS: std::cell::Cell<u64> = const { std::cell::Cell::new(0) };
+    /// a `size_hint` that did not bracket the number of items the iterator then yielded
+    pub static PROTOCOL_FAULT: std::cell::RefCell<Option<String>> = const { std::cell::RefCell::new(None) };
+}
+
+/// Drain an iterator a drawable handed to a recording target, in the way `CONSUME_MODE` says. A real display driver
+/// is free to consume it with a `for` loop, with internal iteration (`for_each` / `fold`), after a first `next()`
+/// (peeking drivers), or with `nth`; the picture must not depend on that (round-5 seeds: `fold` / `nth` / `size_hint`
+/// overrides that are wrong after a `next()` or across rows). main.rs re-runs every drawing op in one of the modes
+/// 1..3 and compares the result line with the `for`-loop run.
+///   1  `for_each`                      2  one `next()`, then `for_each`
+///   3  `size_hint()` first, then `nth(0)` until `None`; the hint must bracket the count
+/// Internal iteration cannot be stopped: modes 1 and 2 are used only when `size_hint` promises an end within the budget
+/// (an endless `repeat(..)` stream falls back to the loop).
+pub fn drain_iter<T, I: Iterator<Item = T>>(mut it: I, budget: u64, exceeded: &mut bool) -> Vec<T> {
+    DRAIN_CALLS.with(|c| c.set(c.get() + 1));
+    let mut mode = CONSUME_MODE.with(|m| m.get());
+    let (lo, hi) = it.size_hint();
+    if (mode == 1 || mode == 2) && !matches!(hi, Some(h) if (h as u64) <= budget) {
+        mode = 0;
+    }
+    let mut v: Vec<T> = Vec::new();
+    match mode {
+        1 | 2 => {
+            if mode == 2 {
+                if let Some(x) = it.next() {
+                    v.push(x);
+                }
+            }
+            it.for_each(|x| v.push(x));
+        }
+        3 => {
+            let mut n = 0u64;
+            while let Some(x) = it.nth(0) {
+                n += 1;
+                if n > budget {
+                    *exceeded = true;
+                    break;
+                }
+                v.push(x);
+            }
+            if !*exceeded && (lo > v.len() || hi.map_or(false, |h| h < v.len())) {
+                PROTOCOL_FAULT.with(|f| *f.borrow_mut() = Some(format!("size_hint ({}, {:?}) but the iterator yielded {} item(s)", lo, hi, v.len())));
+            }
+        }
+        _ => {
+            let mut n = 0u64;
+            for x in it {
+                n += 1;
+                if n > budget {
+                    *exceeded = true;
+                    break;
+                }
+                v.push(x);
+            }
+        }
+    }
+    v
+}
+
 fn do_draw_iter<C: ColNum, I: IntoIterator<Item = Pixel<C>>>(rec: &mut Rec, pixels: I) -> Result<(), TErr> {
     rec.enter()?;
-    let mut v = Vec::new();
-    let mut n = 0u64;
-    for Pixel(p, c) in pixels {
-        n += 1;
-        if n > rec.budget {
-            rec.budget_exceeded = true;
-            break;
-        }
+    let mut exceeded = false;
+    let items = drain_iter(pixels.into_iter(), rec.budget, &mut exceeded);
+    if exceeded {
+        rec.budget_exceeded = true;
+    }
+    let mut v = Vec::with_capacity(items.len());
+    for Pixel(p, c) in items {
         v.push(((p.x, p.y), c.num()));
         rec.set(p, c.num());
     }
@@ -646,17 +709,12 @@ impl<C: ColNum> DrawTarget for R2<C> {
         // documented meaning: colours are paired with the row-major points of `area`; the
         // iterator is drained completely and everything it yields is recorded.
         let cs: Vec<u32> = {
-            let mut v = Vec::new();
-            let mut n = 0u64;
-            for c in colors {
-                n += 1;
-                if n > self.rec.budget {
-                    self.rec.budget_exceeded = true;
-                    break;
-                }
-                v.push(c.num());
+            let mut exceeded = false;
+            let items = drain_iter(colors.into_iter(), self.rec.budget, &mut exceeded);
+            if exceeded {
+                self.rec.budget_exceeded = true;
             }
-            v
+            items.into_iter().map(|c| c.num()).collect()
         };
         let w = area.size.width as i64;
         let h = area.size.height as i64;
@@ -685,6 +743,107 @@ impl<C: ColNum> DrawTarget for R2<C> {
         self.rec.log.push(Call::Clear(color.num()));
         Ok(())
     }
+}
+
+/// Iterator protocol of a cloneable library iterator (`points()`, `pixels()`, raw data iterators): whatever has been
+/// consumed with `next()` so far, the remaining items reached through `fold` / `for_each`, `count`, `last`, `nth`,
+/// `skip`, `step_by` are the items the plain `next()` sequence yields, and `size_hint` brackets their number
+/// (round-5 seeds: `nth` / `fold` / `size_hint` overrides that disagree with `next`). `cap`: iterators longer than
+/// that are not examined. Class = the caller's; evaluated once per call.
+pub fn iter_protocol_check<T: PartialEq + Clone + core::fmt::Debug, I: Iterator<Item = T> + Clone>(ctx: &mut Ctx, class: &str, it0: I, cap: usize) {
+    let mut reference: Vec<T> = Vec::new();
+    {
+        let mut it = it0.clone();
+        while let Some(x) = it.next() {
+            reference.push(x);
+            if reference.len() > cap {
+                ctx.count("obs:iter-protocol:too-long-not-examined");
+                return;
+            }
+        }
+        // exhausted: size_hint must still be answerable and bracket 0
+        let (lo, _) = it.size_hint();
+        if lo != 0 {
+            ctx.expect(false, class, || format!("exhausted iterator reports size_hint lower bound {}", lo));
+            return;
+        }
+    }
+    let len = reference.len();
+    let mut ks = vec![0usize, 1, len / 2, len.saturating_sub(1), len];
+    ks.retain(|k| *k <= len);
+    ks.sort();
+    ks.dedup();
+    let mut bad: Option<String> = None;
+    'outer: for &k in &ks {
+        let mut a = it0.clone();
+        for _ in 0..k {
+            a.next();
+        }
+        let rest = &reference[k..];
+        let (lo, hi) = a.size_hint();
+        if lo > rest.len() || hi.map_or(false, |h| h < rest.len()) {
+            bad = Some(format!("after {} next(): size_hint ({}, {:?}) but {} item(s) remain", k, lo, hi, rest.len()));
+            break;
+        }
+        let folded: Vec<T> = a.clone().fold(Vec::new(), |mut v, x| {
+            v.push(x);
+            v
+        });
+        if folded != rest {
+            bad = Some(format!("after {} next(): fold yields {} item(s), next() {}", k, folded.len(), rest.len()));
+            break;
+        }
+        let mut fe: Vec<T> = Vec::new();
+        a.clone().for_each(|x| fe.push(x));
+        if fe != rest {
+            bad = Some(format!("after {} next(): for_each yields {} item(s), next() {}", k, fe.len(), rest.len()));
+            break;
+        }
+        if a.clone().count() != rest.len() {
+            bad = Some(format!("after {} next(): count() = {}, next() yields {}", k, a.clone().count(), rest.len()));
+            break;
+        }
+        if a.clone().last() != rest.last().cloned() {
+            bad = Some(format!("after {} next(): last() differs", k));
+            break;
+        }
+        for j in [1usize, 2, 3, 7] {
+            // nth stepping
+            let mut b = a.clone();
+            let mut idx = 0usize;
+            loop {
+                match b.nth(j) {
+                    Some(x) => {
+                        idx += j;
+                        if idx >= rest.len() || x != rest[idx] {
+                            bad = Some(format!("after {} next(): nth({}) yields {:?} where next() has {:?}", k, j, x, rest.get(idx)));
+                            break 'outer;
+                        }
+                        idx += 1;
+                    }
+                    None => {
+                        if idx + j < rest.len() {
+                            bad = Some(format!("after {} next(): nth({}) = None with {} item(s) left", k, j, rest.len() - idx));
+                            break 'outer;
+                        }
+                        break;
+                    }
+                }
+            }
+            let skipped: Vec<T> = a.clone().skip(j).collect();
+            if skipped != rest[j.min(rest.len())..] {
+                bad = Some(format!("after {} next(): skip({}) yields {} item(s), expected {}", k, j, skipped.len(), rest.len().saturating_sub(j)));
+                break 'outer;
+            }
+            let stepped: Vec<T> = a.clone().step_by(j + 1).collect();
+            let want: Vec<T> = rest.iter().step_by(j + 1).cloned().collect();
+            if stepped != want {
+                bad = Some(format!("after {} next(): step_by({}) yields {:?}.., expected {:?}..", k, j + 1, stepped.iter().take(3).collect::<Vec<_>>(), want.iter().take(3).collect::<Vec<_>>()));
+                break 'outer;
+            }
+        }
+    }
+    ctx.expect(bad.is_none(), class, || bad.clone().unwrap_or_default());
 }
 
 /// A harness module covers one topic (`rect`, `raw`, `circle`, ...): all its stream names start
